@@ -121,6 +121,8 @@ def run(tier):
                 bad.append((ar + "_into_array_view", want, o.get(ar + "_fresh")))
             if o.get(ar + "_rot") != want:
                 bad.append((ar + "_into_rotated_view", want, o.get(ar + "_rot")))
+            if o.get(ar + "_cfresh") != want:
+                bad.append((ar + "_saved_from_a_read_only_view", want, o.get(ar + "_cfresh")))
             if o.get(ar + "_rot_frame") is False:
                 bad.append((ar + "_load_touched_other_elements", True, False))
         if o.get("xml_tokens") != want:
